@@ -316,6 +316,10 @@ pub enum RawF {
     /// re-instantiated in the current scope: free variables mapped to variables in scope, bound
     /// variables renamed where they would clash
     Repeat(u16, u16),
+    /// two quantified copies of one body: `(Q1{v} in %d%: body) op (Q2{v'} in %d'%: body)`, the second
+    /// one optionally one quantifier deeper (so that it gets another internal name); d' is the same
+    /// label, another label or absent depending on the variant
+    Twin(u8, u16, u8, Box<RawF>),
 }
 
 #[derive(Clone, Copy, Debug)]
@@ -372,8 +376,10 @@ pub fn raw_f(depth: u32, size: u32) -> BoxedStrategy<RawF> {
             4 => (0..7u8, inner.clone()).prop_map(|(op, a)| RawF::Un(op, Box::new(a))),
             4 => (0..9u8, inner.clone(), inner.clone())
                 .prop_map(|(op, a, b)| RawF::Bin(op, Box::new(a), Box::new(b))),
-            5 => (0..6u8, any::<u16>(), prop::option::weighted(0.45, any::<u16>()), inner)
+            5 => (0..6u8, any::<u16>(), prop::option::weighted(0.45, any::<u16>()), inner.clone())
                 .prop_map(|(op, v, d, a)| RawF::Hyb(op, v, d, Box::new(a))),
+            2 => (any::<u8>(), any::<u16>(), any::<u8>(), inner)
+                .prop_map(|(ops, d, variant, a)| RawF::Twin(ops, d, variant, Box::new(a))),
         ]
     })
     .boxed()
@@ -556,6 +562,52 @@ fn resolve_node(raw: &RawF, env: &FEnv, scope: &mut Vec<String>, seen: &mut Vec<
             let body = resolve_rec(a, env, scope, seen);
             scope.pop();
             F::Hyb(op, v, d, Box::new(body))
+        }
+        RawF::Twin(ops, dsel, variant, body) => {
+            if scope.len() + 2 > env.cfg.max_quant_depth {
+                return resolve_rec(body, env, scope, seen);
+            }
+            let quants = [HybOp::Bind, HybOp::Exists, HybOp::Forall];
+            let (q1, q2) = (quants[(*ops % 3) as usize], quants[((*ops / 3) % 3) as usize]);
+            let bop = BIN_OPS[((*ops / 9) % 5) as usize];
+            let v = fresh_binder(*dsel, scope, env.binders);
+            let label = |k: usize| -> Option<String> {
+                if env.cfg.domains && !env.labels.is_empty() {
+                    Some(env.labels[(idx(*dsel, env.labels.len()) + k) % env.labels.len()].clone())
+                } else {
+                    None
+                }
+            };
+            let d1 = label(0);
+            let d2 = match variant % 4 {
+                0 | 1 => label(0),
+                2 => label(1),
+                _ => None,
+            };
+            scope.push(v.clone());
+            let b = resolve_rec(body, env, scope, seen);
+            scope.pop();
+            let first = F::Hyb(q1, v.clone(), d1, Box::new(b.clone()));
+            // second copy: same body, optionally wrapped one quantifier deeper
+            let second = if variant & 4 != 0 {
+                let mut taken = scope.clone();
+                taken.push(v.clone());
+                b.visit(&mut |g| {
+                    if let F::Hyb(_, name, _, _) = g {
+                        taken.push(name.clone());
+                    }
+                });
+                let w = fresh_binder(dsel.wrapping_add(20000), &taken, env.binders);
+                // the wrapper variable is unused; the copy's own variable keeps its name `v`
+                F::Hyb(HybOp::Exists, w, None, Box::new(F::Hyb(q2, v.clone(), d2, Box::new(b))))
+            } else {
+                F::Hyb(q2, v.clone(), d2, Box::new(b))
+            };
+            if variant & 8 != 0 {
+                F::Bin(bop, Box::new(second), Box::new(first))
+            } else {
+                F::Bin(bop, Box::new(first), Box::new(second))
+            }
         }
         RawF::Pattern(variant, sel) => {
             if !env.cfg.patterns || scope.len() >= env.cfg.max_quant_depth {
